@@ -11,95 +11,197 @@ open BM
 
 /-- The code's shift loop computes ⌊log₂(n+1)⌋ leading zeros: the encoder emits exactly the H.264 table entry. -/
 theorem ue_codeword (n : Nat) : ueEncodeNat n = ueSpec n := by
-  sorry
+  obtain ⟨h1, h2⟩ := log2_bounds n
+  rw [ueEncodeNat_eq]; unfold ueSpec
+  simp only
+  rw [natToBits_succ_of_range _ _ h1 (by rw [Nat.pow_succ]; exact h2)]
 
 theorem ue_length (n : Nat) : (ueEncodeNat n).length = 2 * Nat.log2 (n + 1) + 1 := by
-  sorry
+  exact ueEncodeNat_length n
 
 /-- Round trip + self-delimitation + exact position advance, anywhere in a stream. -/
 theorem readUE_encode (pre post : Bits) (n : Nat) :
     readUE (pre ++ ueEncodeNat n ++ post) pre.length
       = .ok (n, pre.length + (ueEncodeNat n).length) := by
-  sorry
+  exact readUE_encode' pre post n
 
 /-- The signed mapping is a bijection onto ℕ (so `se` inherits everything from `ue`). -/
 theorem seMap_injective (i j : Int) (h : seMap i = seMap j) : i = j := by
-  sorry
+  unfold seMap at h; split at h <;> split at h <;> omega
 
 theorem seMap_surjective (u : Nat) : ∃ i : Int, seMap i = u := by
-  sorry
+  exact ⟨seDecode u, seMap_seDecode u⟩
 
 theorem readSE_encode (pre post : Bits) (i : Int) :
     readSE (pre ++ seEncode i ++ post) pre.length
       = .ok (i, pre.length + (seEncode i).length) := by
-  sorry
+  rw [readSE_eq]; unfold seEncode
+  rw [readUE_encode']
+  simp only [seDecode_seMap]
 
 /-- A successful read consumes at least one bit and never passes the end. -/
 theorem readUE_ok_bounds (b : Bits) (p v p' : Nat) (h : readUE b p = .ok (v, p')) :
     p < p' ∧ p' ≤ b.length := by
-  sorry
+  obtain ⟨k, tail, post, hd, hlen, -, hp⟩ := readUE_ok_struct b p v p' h
+  have hl := congrArg List.length hd
+  simp only [List.length_drop, List.length_append, List.length_replicate, List.length_cons] at hl
+  omega
 
 theorem readSE_ok_bounds (b : Bits) (p : Nat) (v : Int) (p' : Nat) (h : readSE b p = .ok (v, p')) :
     p < p' ∧ p' ≤ b.length := by
-  sorry
+  rw [readSE_eq] at h
+  split at h
+  · cases h
+  · rename_i c q hq
+    cases h
+    exact readUE_ok_bounds b p c p' hq
 
 /-- The only way a read fails is ReadError. -/
 theorem readUE_err (b : Bits) (p : Nat) (e : Err) (h : readUE b p = .error e) : e = .read := by
-  sorry
+  unfold readUE at h
+  split at h
+  · cases h; rfl
+  · simp only at h
+    split at h
+    · split at h
+      · cases h; rfl
+      · cases h
+    · cases h
 
 theorem readSE_err (b : Bits) (p : Nat) (e : Err) (h : readSE b p = .error e) : e = .read := by
-  sorry
+  rw [readSE_eq] at h
+  split at h
+  · rename_i e' he
+    cases h
+    exact readUE_err b p e he
+  · cases h
 
 /-- Every proper prefix of a codeword is a truncated code: ReadError (position is not returned, hence unchanged). -/
 theorem truncated_ue (pre : Bits) (n q : Nat) (hq : q < (ueEncodeNat n).length) :
     readUE (pre ++ (ueEncodeNat n).take q) pre.length = .error .read := by
-  sorry
+  rw [ueEncodeNat_length] at hq
+  rw [ueEncodeNat_eq]
+  exact readUE_truncated_struct pre _ _ q (natToBits_length _ _) hq
 
 theorem truncated_se (pre : Bits) (i : Int) (q : Nat) (hq : q < (seEncode i).length) :
     readSE (pre ++ (seEncode i).take q) pre.length = .error .read := by
-  sorry
+  rw [readSE_eq]; unfold seEncode at *
+  rw [truncated_ue pre _ q hq]
 
 /-- Whole-value interpretation accepts exactly the codewords: no extra bits, no truncation. -/
 theorem getUE_exact (b : Bits) (n : Nat) : getUE b = .ok n ↔ b = ueEncodeNat n := by
-  sorry
+  constructor
+  · intro h
+    unfold getUE wholeOf at h
+    split at h
+    · cases h
+    · rename_i v p hr
+      split at h
+      · cases h
+      · rename_i hp
+        have hp' : p = b.length := by simpa using hp
+        cases h; subst hp'
+        obtain ⟨k, tail, post, hd, hlen, hv, hp⟩ := readUE_ok_struct b 0 _ _ hr
+        rw [List.drop_zero] at hd
+        have hl := congrArg List.length hd
+        simp only [List.length_append, List.length_replicate, List.length_cons] at hl
+        have hpost : post = [] := List.eq_nil_of_length_eq_zero (by omega)
+        subst hpost
+        rw [hv, ueEncodeNat_of_struct k tail hlen, hd]; simp
+  · intro h
+    subst h
+    have := readUE_encode' [] [] n
+    simp only [List.nil_append, List.append_nil, List.length_nil, Nat.zero_add] at this
+    unfold getUE wholeOf
+    rw [this]; simp
 
 theorem getSE_exact (b : Bits) (i : Int) : getSE b = .ok i ↔ b = seEncode i := by
-  sorry
+  constructor
+  · intro h
+    unfold getSE wholeOf at h
+    rw [readSE_eq] at h
+    split at h
+    · cases h
+    · rename_i v p hr
+      split at hr
+      · cases hr
+      · rename_i c q hq
+        cases hr
+        split at h
+        · cases h
+        · rename_i hp
+          have hp' : p = b.length := by simpa using hp
+          cases h; subst hp'
+          have hb : getUE b = .ok c := by unfold getUE wholeOf; rw [hq]; simp
+          rw [getUE_exact] at hb
+          unfold seEncode; rw [seMap_seDecode]; exact hb
+  · intro h
+    subst h
+    have := readSE_encode [] [] i
+    simp only [List.nil_append, List.append_nil, List.length_nil, Nat.zero_add] at this
+    unfold getSE wholeOf
+    rw [this]; simp
 
 theorem getUE_extra_bits (n : Nat) (x : Bool) (post : Bits) :
     getUE (ueEncodeNat n ++ x :: post) = .error .value := by
-  sorry
+  have := readUE_encode' [] (x :: post) n
+  simp only [List.nil_append, List.length_nil, Nat.zero_add] at this
+  unfold getUE wholeOf
+  rw [this]; simp
 
 theorem getUE_truncated (n q : Nat) (hq : q < (ueEncodeNat n).length) :
     getUE ((ueEncodeNat n).take q) = .error .value := by
-  sorry
+  have := truncated_ue [] n q hq
+  simp only [List.nil_append, List.length_nil] at this
+  unfold getUE wholeOf
+  rw [this]
 
 /-- Negative values are rejected by the unsigned code. -/
 theorem ue_negative (i : Int) (h : i < 0) : ueEncode i = .error .value := by
-  sorry
+  unfold ueEncode; rw [if_pos h]
 
 theorem ue_nonneg (i : Int) (h : 0 ≤ i) : ueEncode i = .ok (ueEncodeNat i.toNat) := by
-  sorry
+  unfold ueEncode; rw [if_neg (by omega)]
 
 /-- The stream-level reader (`get_fn(bs[start:])`, offset added back) is the positional reader. -/
 theorem streamRead_readUE (b : Bits) (pos : Nat) (h : pos ≤ b.length) :
     streamRead readUE b pos = readUE b pos := by
-  sorry
+  unfold streamRead readUE
+  simp only [List.drop_drop, List.length_drop, Nat.zero_add]
+  cases countZeros (List.drop pos b) with
+  | none => rfl
+  | some lz =>
+    simp only
+    by_cases hlz : lz > 0
+    · simp only [hlz, if_true]
+      by_cases hlen : pos + lz + lz + 1 > b.length
+      · rw [if_pos hlen, if_pos (by omega)]
+      · rw [if_neg hlen, if_neg (by omega)]
+        simp only [Except.ok.injEq, Prod.mk.injEq]
+        refine ⟨?_, by omega⟩
+        rw [show pos + (lz + 1) = pos + lz + 1 by omega]
+    · simp only [hlz, if_false]
+      simp [Nat.add_assoc]
 
 theorem streamRead_readSE (b : Bits) (pos : Nat) (h : pos ≤ b.length) :
     streamRead readSE b pos = readSE b pos := by
-  sorry
+  have hue := streamRead_readUE b pos h
+  unfold streamRead at *
+  rw [readSE_eq, readSE_eq, ← hue]
+  cases readUE (List.drop pos b) 0 with
+  | error e => rfl
+  | ok x => rfl
 
 /-- Any concatenation of codewords reads back as the same sequence, ending exactly after the last one. -/
 theorem stream_roundtrip_ue (pre post : Bits) (ns : List Nat) :
     decodeAll readUE ns.length (pre ++ ns.flatMap ueEncodeNat ++ post) pre.length
       = .ok (ns, pre.length + (ns.flatMap ueEncodeNat).length) := by
-  sorry
+  exact decodeAll_roundtrip readUE ueEncodeNat readUE_encode pre post ns
 
 theorem stream_roundtrip_se (pre post : Bits) (is : List Int) :
     decodeAll readSE is.length (pre ++ is.flatMap seEncode ++ post) pre.length
       = .ok (is, pre.length + (is.flatMap seEncode).length) := by
-  sorry
+  exact decodeAll_roundtrip readSE seEncode readSE_encode pre post is
 
 /-! ### non-vacuity -/
 example : ueEncodeNat 4 = [false, false, true, false, true] := by decide
